@@ -365,7 +365,8 @@ def drainKafka (fixed : Bool) (k : Int) (s1 : RS) : Outcome × RS :=
     | (.error e, s2) => (.fail e, s2)
   else (.kafka k, s1)
 
-/-- ReadBatchWith + reading the batch to its end + Close; `fixed` = with discardOnKafkaError (D2 fix).
+/-- ReadBatchWith + reading the batch to its end + Close; `fixed` = with discardOnKafkaError (D2 fix) and with the
+skip of the message set at the high watermark (C11-D32).
 Deadlines never expire in the model (checkTimeoutErr = io.EOF). -/
 def fetchRead (fixed : Bool) (v : Nat) (offset : Int) (b : Body) (s : RS) : Outcome × RS :=
   match runSteps (fetchHeader v) { ver := v } s with
@@ -373,7 +374,8 @@ def fetchRead (fixed : Bool) (v : Nat) (offset : Int) (b : Body) (s : RS) : Outc
   | (.error .shortRead, s1) => (.fail .unexpectedEOF, s1)      -- checkTimeoutErr → io.EOF → dontExpectEOF
   | (.error e, s1) => (.fail e, s1)
   | (.ok c, s1) =>
-    if c.hwm = offset then (.kafka 7, s1)                       -- messageSetReader{empty: true}: RequestTimedOut, nothing discarded
+    if c.hwm = offset then drainKafka fixed 7 s1                -- messageSetReader{empty: true}: RequestTimedOut; the set the
+                                                                -- response nevertheless carries is skipped (fix C11-D32)
     else
       match b.first s1 with
       | (.error .shortRead, s2) => (.fail .unexpectedEOF, s2)   -- same mapping: an empty set below the watermark closes the Conn
